@@ -104,6 +104,44 @@ CLAIMED.update({
         ref="5 C12", tech="TLA+ default-validator model (TLC) + trace validation over the RFC 3339 rendering space", note=PARSER_NOTE),
 })
 
+CLAIMED.update({
+    "C08": dict(cat="exploration",
+        text="spec/Core.tla is the transcription of Version1-4.md + Common.md; MC_Terms prints the term tree of the prescribed token per "
+             "protocol (PAE expanded to LE64/concat) and checks that each protocol's terms bind exactly its inputs; a ~300-line interpreter "
+             "gives the operators their primitive meaning and is pinned to 45 official vectors at every run (pin failure = tool error); "
+             "local: byte-identity with try_encrypt and decryption of specification tokens (incl. arbitrary wire nonces); public: "
+             "cross-verification both ways incl. s-negated ECDSA; footer segment iff non-empty.",
+        ref="5 C08", tech="TLA+ term model of the PASETO algorithms + term evaluator pinned to official vectors (differential)",
+        note="Trusted base: the primitive crates shared with the library (no protocol code shared); the official vectors shipped in the "
+             "repository's tests (v1.public has none: RSA-PSS is randomised); TLC only prints and sanity-checks the terms."),
+    "C09": dict(
+        text="MC_Shapes enumerates every token shape - header x segment count 0..6 x decoded payload length 0..400 x canonical/non-canonical x "
+             "footer segment - and proves on the step-by-step model that all entry points return a format/authentication error; every shape "
+             "is replayed against all 24 entry points under catch_unwind, plus prefixes of authentic tokens, random Unicode, 1 MiB inputs and "
+             "Key::<N>::try_from(hex) for every length 0..200.",
+        ref="5 C09", tech="TLA+ shape model (TLC, exhaustive over lengths) + replay of every shape under catch_unwind"),
+    "C18": dict(cat="exploration",
+        text="spec/Claims.tla states the constructor contract; MC_Claims enumerates all 30 940 keys of length <= 4 over the letters of the "
+             "registered names (invariant: exactly seven are refused), decorated variants and time-string classes; every case is executed "
+             "against all constructor forms and value types; 'either' cases are not asserted.",
+        ref="5 C18", tech="TLA+ decision table enumerated by TLC + exhaustive replay of constructor calls",
+        note="Trusted base: TLC; the instantiation of 'does not start with an ISO 8601 date' (first four characters not all digits, no sign)."),
+    "C19": dict(cat="exploration",
+        text="spec/Typing.tla is the static contract as a decision table; TLC enumerates all 948 (operation, protocol, key protocol / key "
+             "size) tuples with the expected verdict; one generated program per tuple is compiled by rustc against the crate built from the "
+             "working tree; disagreement in either direction is a violation; rejections must be type errors. One-step model: TLC adds "
+             "enumeration and a single source of verdicts, not reasoning power.",
+        ref="5 C19", tech="TLA+ typing table enumerated by TLC + generated programs compiled with rustc",
+        note="Trusted base: rustc; the program templates of lib/typing_gen.py (parameters carry the types)."),
+    "C20": dict(cat="exploration",
+        text="feature table and #[from] gates are extracted from the working tree into FeaturesGen.tla; TLC evaluates closure, coherence-conflict "
+             "and dependency predicates over all 766 documented configurations and selects flagged ones; the verdict comes from real builds: "
+             "cargo check for singletons, all 28 pairs and the full set x 3 layers + default + none (thorough: all 255 x 3) and smoke-program "
+             "runs (one round trip per enabled protocol).",
+        ref="5 C20", tech="TLA+ feature-closure model on constants extracted from the tree + real cargo builds and smoke runs",
+        note="Trusted base: cargo/rustc; the smoke crate harness/smoke. The model never alarms by itself."),
+})
+
 NOT_YET = "check not built yet (work in progress, see DESIGN.md section 11)"
 
 
